@@ -905,6 +905,12 @@ def _holds_load_clip(ctx, inp, io):
     codes = np.array([[_fl(x) if isinstance(x, str) else x for x in row] for row in v["frames"]], dtype=float)
     N = rdata.shape[0]
     fcodes = _FILES[_file_key(inp["file"], inp["fsr"])][1]
+    if codes.ndim != 2 or codes.shape[1] != fcodes.shape[1]:
+        return _m("the clip does not have the channels of the file",
+                  f"array of shape {list(codes.shape)}, the file has {fcodes.shape[1]} channels")
+    if rdata.ndim != 2 or rdata.shape[1] != fcodes.shape[1]:
+        return _m("load_recording does not return the channels of the file",
+                  f"array of shape {list(rdata.shape)}, the file has {fcodes.shape[1]} channels")
     for what, src, scale in (("load_recording", rdata, 32768.0), ("the file as written", fcodes, 1.0)):
         M = src.shape[0]
         want = np.zeros_like(codes)
@@ -1618,10 +1624,13 @@ def _holds_file_history(ctx, inp, io):
                              f"samplerate {out['val']['sr']}, duration {float(frac(out['val']['duration']))!r}, channels "
                              f"{out['val']['channels']}; the file has {n} frames, {c['file']['ch']} channels at {c['fsr']} Hz "
                              f"(expansion {c['te']})")
-        elif st["k"] == "load_clip":
-            msg = _holds_load_clip(ctx, c, out)
         else:
-            msg = _holds_recording(ctx, c, out)
+            try:
+                msg = _holds_load_clip(ctx, c, out) if st["k"] == "load_clip" else _holds_recording(ctx, c, out)
+            except InfraError:
+                raise
+            except Exception as e:  # noqa: BLE001 - an answer of a shape the judge of the base operation cannot read
+                msg = _m("the loaded array is not an array of the file's frames (the judge could not read it)", repr(e)[:200])
         if msg:
             cls, detail = _strip_cls(msg)
             return _fhm(cls, k, inp, detail)
